@@ -57,7 +57,7 @@ func collect(sets []*qSelSet, T string) []*group {
 			g.fields = append(g.fields, f)
 		}
 		for _, fr := range s.Frags {
-			if !fr.Inapplicable && fr.On == T {
+			if !fr.Inapplicable && (fr.On == T || fr.UnionSelf) {
 				walk(fr.Set)
 			}
 		}
@@ -88,13 +88,23 @@ func jsonKind(v interface{}) string {
 
 // covered reports whether every member of union u has an applicable fragment.
 func (c *checker) uncoveredMember(u *advType, sets []*qSelSet) string {
+	var has func(s *qSelSet, m string) bool
+	has = func(s *qSelSet, m string) bool {
+		for _, fr := range s.Frags {
+			if fr.Inapplicable {
+				continue
+			}
+			if fr.On == m || (fr.UnionSelf && has(fr.Set, m)) {
+				return true
+			}
+		}
+		return false
+	}
 	for _, m := range u.possible {
 		found := false
 		for _, s := range sets {
-			for _, fr := range s.Frags {
-				if !fr.Inapplicable && fr.On == m {
-					found = true
-				}
+			if has(s, m) {
+				found = true
 			}
 		}
 		if !found {
